@@ -58,7 +58,19 @@ FUNCS = {"float": float, "setattr": _setattr, "str": str, "dict": dict, "os.path
          "divmod": divmod, "ceil": math.ceil, "floor": math.floor, "math.ceil": math.ceil, "math.floor": math.floor,
          "prod": math.prod, "math.prod": math.prod, "combinations": itertools.combinations, "itertools.combinations": itertools.combinations,
          "permutations": itertools.permutations, "product": itertools.product, "itertools.product": itertools.product,
-         "mul": operator.mul, "operator.mul": operator.mul, "isgenerator": lambda x: False}
+         "mul": operator.mul, "operator.mul": operator.mul, "isgenerator": lambda x: False,
+         "map": lambda *a: list(map(*a)), "filter": lambda *a: list(filter(*a)), "frozenset": frozenset, "pow": pow, "round": round,
+         "operator.neg": operator.neg, "operator.add": operator.add, "operator.sub": operator.sub, "operator.itemgetter": operator.itemgetter,
+         "itemgetter": operator.itemgetter, "itertools.chain": lambda *a: list(itertools.chain(*a)), "chain": lambda *a: list(itertools.chain(*a)),
+         "itertools.permutations": itertools.permutations, "itertools.repeat": lambda *a: list(itertools.repeat(*a)) if len(a) == 2 else _unk("repeat"),
+         "math.log": math.log, "log": math.log, "math.log2": math.log2, "log2": math.log2, "math.sqrt": math.sqrt,
+         "itertools.combinations_with_replacement": itertools.combinations_with_replacement,
+         "combinations_with_replacement": itertools.combinations_with_replacement, "itertools.islice": lambda *a: list(itertools.islice(*a)),
+         "islice": lambda *a: list(itertools.islice(*a)), "functools.reduce": reduce, "reduce": reduce}
+
+
+def _unk(what):
+    raise Unknown(what)
 METHODS = {"count", "index", "copy", "bit_length", "get", "items", "keys", "values", "lower", "upper", "endswith", "startswith", "split",
            "rsplit", "strip", "lstrip", "rstrip", "format", "join", "splitlines", "replace", "find", "rfind", "isdigit", "partition", "rpartition"}
 MUTATING = {"append", "extend", "insert", "pop", "remove", "sort", "reverse"}
@@ -237,6 +249,8 @@ class Folder:
             except TypeError as x:
                 raise Unknown("subscript: %s" % x)
         if isinstance(e, ast.Attribute):
+            if _name(e) in FUNCS and isinstance(e.value, ast.Name) and e.value.id not in self.env:
+                return FUNCS[_name(e)]                      # operator.mul, itertools.product .. used as a value
             v = self.ev(e.value)
             if isinstance(v, Opaque):
                 return getattr(v, e.attr)
@@ -403,7 +417,23 @@ class Folder:
                     raise Raised(type(x).__name__)
                 return list(v) if m in ("items", "keys", "values") else v
             if m in MUTATING and isinstance(recv, list):
-                return getattr(recv, m)(*args)
+                try:
+                    return getattr(recv, m)(*args, **kw)
+                except PYEXC as x:
+                    raise Raised(type(x).__name__)
+            if isinstance(recv, set) and m in ("add", "discard", "remove", "update", "union", "intersection", "difference", "issubset",
+                                               "issuperset", "copy", "pop", "clear"):
+                try:
+                    return getattr(recv, m)(*args)
+                except PYEXC as x:
+                    raise Raised(type(x).__name__)
+                except TypeError as x:
+                    raise Unknown(str(x))
+            if isinstance(recv, dict) and m in ("setdefault", "update", "pop"):
+                try:
+                    return getattr(recv, m)(*args, **kw)
+                except PYEXC as x:
+                    raise Raised(type(x).__name__)
         raise Unknown("call %s" % fn)
 
     # ------------------------------------------------------------------ statements
